@@ -714,7 +714,10 @@ def mon_c10(trace):
         for cur in seqs:
             if cur is None:
                 continue
-            if last is not None and len(last) == len(cur):
+            if last is not None and len(cur) < len(last):
+                out.append(_fail("C10", trace, t, f"{len(last) - len(cur)} registered event(s) disappeared", sig="tracker-lost"))
+            if last is not None:
+                # events are only ever appended: compare the trackers already registered
                 for i, (a, b) in enumerate(zip(last, cur)):
                     if RANK[b["status"]] < RANK[a["status"]] or (RANK[b["status"]] == RANK[a["status"]] and a["status"] != b["status"]):
                         out.append(_fail("C10", trace, t, f"event {i} went from {a['status']} to {b['status']}"))
